@@ -13,14 +13,24 @@ MANIFEST = dict(
          'enumerators, bases, handler regions) have singleton sets, position i = i and the same lookup rules when names are '
          'distinct. The model is tied to include/ipr/impl + src/impl.cxx by a differential run of a real impl::Lexicon/impl::Scope '
          'against the model (all histories up to a bound over 2 names x 2 types, long random histories with heavy repetition over '
-         'all eight Scope::make_* kinds, homogeneous sequences), and the statement is evaluated directly on the real trace.',
+         'all eight Scope::make_* kinds, scopes of 12-40 names of every name category -- identifiers, operators, conversions, constructor / '
+         'destructor names, template-ids, suffixes -- whose address order contradicts their spelling order, homogeneous sequences), and the '
+         'statement is evaluated directly on the real trace. Every full observation first COLLECTS the master / decl-set / overload / selection '
+         'references of the whole scope and reads through them afterwards (all alive together).',
     note='Lean kernel; axioms propext/Classical.choice/Quot.sound; hand-written model tied by correspondence only on generated '
-         'histories; node addresses are a parameter; the static_cast in decl_factory::redeclare is defined only when a (name,type) '
+         'histories; node addresses are a parameter (the model orders names by address only: the theorems say the observations do not depend '
+         'on that order; guide names are not among the generated names); the static_cast in decl_factory::redeclare is defined only when a (name,type) '
          'pair is used by one kind (generator respects it; C07_cast_safe); harness c07probe.cxx, ASan/UBSan, g++.',
     technique='Lean 4 theorems (invariant over declaration histories, refinement L1 -> L0) + differential correspondence',
     ref='§4 C07')
 
-NAMES = ['N%d' % i for i in range(8)]
+NAMES = ['N%d' % i for i in range(8)]          # the default universe: six identifiers, an operator, a conversion
+BIG = 40                                        # the big universe: names of EVERY category (identifiers, operators, conversions,
+BIGNAMES = ['N%d' % i for i in range(BIG)]      # constructor / destructor names, template-ids, suffixes), see c07probe.cxx
+
+
+def universe_of(label):
+    return BIG if label.startswith('many-names') else 8
 PT = ['P%d' % i for i in range(8)]
 FT = ['F%d' % i for i in range(4)]
 AT = ['A%d' % i for i in range(4)]
@@ -155,6 +165,38 @@ def gen_many_types(tier, rng):
         yield 'many-types', ops
 
 
+def gen_many_names(tier, rng):
+    """Scopes with MANY names (12 .. 40) of every category mixed -- identifiers, operators, conversions, constructor and destructor
+    names, template-ids, suffixes -- whose address order (creation order shuffled per Lexicon) contradicts their spelling order and
+    their index order; entered in random order with later overloads and redeclarations, enough for the overload tree to rotate many
+    times.  After every declaration the name just declared and two names declared earlier are looked up; the whole scope is
+    observed every few declarations and at the end."""
+    for c in range(60 if tier == 'quick' else 600):
+        names = rng.sample(BIGNAMES, rng.randint(12, BIG))
+        types = rng.sample(TYPES, rng.randint(1, 3))
+        kind, done = {}, []
+        todo = [(n, rng.choice(types)) for n in names]
+        every = rng.randint(3, 9)
+        ops = ['new']
+        while todo:
+            if done and rng.random() < 0.25:
+                n, t = rng.choice(done)[0], rng.choice(types)         # another overload / a redeclaration of an earlier name
+            else:
+                n, t = todo.pop()
+            if (n, t) not in kind:
+                kind[(n, t)] = rng.choice(kinds_for(t))
+            ops.append('decl %s %s %s' % (kind[(n, t)], n, t))
+            done.append((n, t))
+            ops.append('probe %s %s' % (n, t))
+            for _ in range(2):
+                m, u = rng.choice(done)
+                ops.append('probe %s %s' % (m, u if rng.random() < 0.8 else rng.choice(types)))
+            if len(done) % every == 0:
+                ops.append('full')
+        ops += ['full', 'sets']
+        yield 'many-names', ops
+
+
 def gen_homogeneous(tier, rng):
     per = 150 if tier == 'quick' else 1000
     for hk in ('param', 'enum', 'base', 'eh'):
@@ -175,16 +217,21 @@ def generate(tier, rng, shape):
     cases += gen_random(tier, rng, shape)
     cases += gen_sandwich(tier, rng)
     cases += gen_many_types(tier, rng)
+    cases += gen_many_names(tier, rng)
     cases += gen_homogeneous(tier, rng)
     return cases
 
 
 def assemble(cases, rng):
-    """One op stream: a fresh Lexicon (universe created in another order) every ~150 cases."""
-    ops, starts = [], []
+    """One op stream: a fresh Lexicon (universe created in another order) every ~150 cases -- every ~12 cases for the big universe,
+    whose point is the address order of the names -- and whenever the size of the universe changes."""
+    ops, starts, cur, since = [], [], None, 0
     for i, (label, c) in enumerate(cases):
-        if i % 150 == 0:
-            ops.append('lexicon %d' % rng.randrange(1 << 30))
+        nn = universe_of(label)
+        if nn != cur or since >= (150 if nn == 8 else 12):
+            ops.append('lexicon %d' % rng.randrange(1 << 30) + ('' if nn == 8 else ' %d' % nn))
+            cur, since = nn, 0
+        since += 1
         starts.append((len(ops), label))
         ops += c
     return ops, starts
@@ -195,7 +242,8 @@ def assemble(cases, rng):
 class Spec:
     """L0: the scope is the list of requests; every expected observation is computed from that list only."""
 
-    def __init__(self):
+    def __init__(self, names=NAMES):
+        self.names = names
         self.h = []          # (shown kind, name, type)
         self.first = {}      # (name,type) -> first index
         self.sets = {}       # (name,type) -> [indices]
@@ -217,7 +265,7 @@ class Spec:
 
     def lookups(self, with_sets):
         items = []
-        for n in NAMES:
+        for n in self.names:
             if n not in self.by_name:
                 items.append(n + '!')
             else:
@@ -243,7 +291,8 @@ class HSpec:
     lookup by name = the first member with that name (the only one when names are distinct), selection by type = that
     member iff it has that type."""
 
-    def __init__(self, hk):
+    def __init__(self, hk, names=NAMES):
+        self.names = names
         self.hk, self.groups = hk, ([[]] if hk != 'eh' else [])
         self.count = 0
 
@@ -264,7 +313,7 @@ class HSpec:
         return len(self.groups) if self.hk == 'eh' else len(self.groups[0])
 
     def group_str(self, g):
-        names = ['nm(%s)' % t for t in TYPES] if self.hk == 'base' else NAMES
+        names = ['nm(%s)' % t for t in TYPES] if self.hk == 'base' else self.names
         types = TYPES + (['ENUM'] if self.hk == 'enum' else [])
         items = []
         for n in names:
@@ -313,7 +362,7 @@ def field_diff(got, exp):
 
 def oracle(ops, impl):
     """The statement of C07 evaluated on the implementation's trace alone.  Returns (op index, message) or None."""
-    spec, hspec = None, None
+    spec, hspec, names = None, None, NAMES
     for i, op in enumerate(ops):
         if i >= len(impl):
             return None
@@ -322,7 +371,9 @@ def oracle(ops, impl):
         exp = None
         if w[0] in ('lexicon', 'new', 'hnew'):
             exp = 'ok'
-            spec, hspec = (Spec(), None) if w[0] == 'new' else (None, HSpec(w[1]) if w[0] == 'hnew' else None)
+            if w[0] == 'lexicon':
+                names = ['N%d' % k for k in range(int(w[2]) if len(w) > 2 else 8)]
+            spec, hspec = (Spec(names), None) if w[0] == 'new' else (None, HSpec(w[1], names) if w[0] == 'hnew' else None)
         elif w[0] == 'decl':
             k = spec.declare(w[1], w[2], w[3])
             exp = 'd%d size=%d' % (k, k + 1)
@@ -458,6 +509,15 @@ def run(tier):
             seq = shrink(probe, seq, what, whitebox)
         except Exception as e:                               # shrinking is best effort
             C.log('[C07] shrinking failed: %r' % e)
+        # A failure may depend on the ADDRESSES the allocator hands out (the order of the name / type nodes), which depend on everything
+        # the process did before: when the scope alone does not fail again, the replay is the whole op stream up to the failing op.
+        try:
+            again = first_problem(probe, seq, whitebox)
+            if not (again and again[0] == what):
+                seq = ops[:i + 1]
+                msg += '\n(the scope alone does not fail again in a fresh process -- the failure depends on node addresses; the replay is the whole op stream up to that op)'
+        except Exception as e:
+            C.log('[C07] re-running the replay failed: %r' % e)
         if what == 'correspondence':
             res.violation('correspondence:scope', msg + '\nthe implementation trace itself satisfies the statement of C07 (oracle), '
                           'so the theorems no longer speak about this code',
@@ -508,6 +568,7 @@ def run(tier):
     ]
     return res.finish(info, rule='a trace is one scope: all 4^L histories over 2 names x 2 types (each prefix observed once in full), random histories with '
                       'Zipf-like repetition over 2-6 names x 2-6 types x all eight make_* kinds (full observation after every declaration for short ones, '
+                      'scopes of 12-40 names of every name category in a universe of 40 names whose creation order is shuffled per Lexicon, '
                       'periodically for long ones up to %d entries: elements, product type, every overload by name, every entry by type, master and decl_set), '
                       'and parameter-list / enumerator / base / handler sequences; the statement is evaluated on the real trace (python oracle built from the '
                       'history alone), then the real trace is diffed against the Lean model' % (20000 if thorough else 500))
